@@ -454,6 +454,16 @@ def preemption_sweep(raws, seed, tier):
             if deployed:
                 sc["setup"] = [{"op": "install", "chart": "cA", "flags": {}}]
             out.append(sc)
+    # ... and from a history of nine revisions on the memory driver (the next revision number has two digits:
+    # its records are kept in a sorted list that is searched by key)
+    longs = [(a, b) for a, b in pairs if a["op"] == "upgrade" and b["op"] == "upgrade"
+             and not a["flags"].get("install") and not b["flags"].get("install")][: (4 if tier == "quick" else 40)]
+    setup9 = [{"op": "install", "chart": "cA", "flags": {}}] + [{"op": "upgrade", "chart": ["cB", "cA"][i % 2], "flags": {}} for i in range(8)]
+    for pi, (a, b) in enumerate(longs):
+        for k in range(0, 13):
+            out.append({"id": "prel%d_%d" % (pi, k), "driver": "memory", "pre": pre, "setup": setup9,
+                        "steps": [dict(a, proc=1), dict(b, proc=2)],
+                        "sched": [{"k": "b", "p": 1}] + [{"k": "c", "p": 1}] * k + [{"k": "b", "p": 2}, {"k": "r", "p": 2}, {"k": "r", "p": 1}]})
     return out
 
 
@@ -576,7 +586,8 @@ def run(pid, tier, seed, replay=None):
     if pid == "C09":
         ps = preemption_sweep(scs, seed, tier)
         for i, sc_ in enumerate(ps):
-            sc_["driver"] = ["secret", "configmap"][i % 2]
+            if sc_["driver"] != "memory":
+                sc_["driver"] = ["secret", "configmap"][i % 2]
         presweep_n = len(ps)
         scs += ps
     # pinned scenarios: histories that once exposed a defect (regress/*.json), replayed in every run
